@@ -96,7 +96,13 @@ impl Compile for NumberLoop {
 
         result.append(&mut val_start);
 
-        result.push(instruction!(store_fast loop_identity));
+        if self.name_is_collision {
+            // the counter is a variable that already exists: it is assigned in place, so that a
+            // function that captured it keeps seeing it (`store_fast` would rebind the name to a new cell)
+            result.push(instruction!(store loop_identity));
+        } else {
+            result.push(instruction!(store_fast loop_identity));
+        }
 
         result.append(&mut val_end);
 
